@@ -246,6 +246,7 @@ func (o *opClient) node() *opNode {
 	defer o.w.mu.Unlock()
 	return o.w.ops[o.id]
 }
+
 // inProcessOf runs f as the RPC handler would run: inside the operator's process
 // (group), so that whatever it creates - goroutines, process-local package state
 // such as the DKV's task queues - belongs to the operator, not to the caller.
